@@ -76,9 +76,12 @@ impl TestRunnerAdapter {
                     }
                     MachineRunningState::Running => {
                         {
+                            // The breakpoint check and the execution of the instruction happen under one lock: a step request
+                            // that got in between the two would move the program counter, and the instruction it was
+                            // moved to would be executed without having been checked
                             #[cfg(mos_verif)]
-                            crate::verif_hooks::point_read("m:runner.read", &thread_runner);
-                            let runner = thread_runner.read().unwrap();
+                            crate::verif_hooks::point_write("m:runner.write", &thread_runner);
+                            let mut runner = thread_runner.write().unwrap();
                             let pc =
                                 ProgramCounter::new(runner.cpu().get_program_counter() as usize);
                             if last_checked_pc != Some(pc) && !no_debug {
@@ -99,12 +102,7 @@ impl TestRunnerAdapter {
                                     continue;
                                 }
                             }
-                        }
 
-                        {
-                            #[cfg(mos_verif)]
-                            crate::verif_hooks::point_write("m:runner.write", &thread_runner);
-                            let mut runner = thread_runner.write().unwrap();
                             #[cfg(mos_verif)]
                             crate::verif_hooks::executed(runner.cpu().get_program_counter());
                             match runner.execute_instruction() {
